@@ -3,6 +3,7 @@
 from __future__ import annotations
 
 import copy
+import math
 import pickle
 
 import numpy
@@ -77,6 +78,8 @@ def strategy(cell, tier):
     return st.fixed_dictionaries({
         "elems": st.lists(gen.vec(("moderate", "octant")), min_size=24, max_size=24),
         "shape": st.sampled_from(range(len(SHAPES[rank]))),
+        # order of the fields in the structured dtype (any permutation is a valid array) and an extra non-coordinate field
+        "perm": st.integers(0, 23), "extra": st.sampled_from((None, None, "first", "last", "middle")),
         "idx": st.lists(one, min_size=6, max_size=10),
     })
 
@@ -134,6 +137,21 @@ def check_case(cell, case, ctx):
             return
         rows.append(tuple(float(x) for x in R.from_cartesian(sa, c)))
     base = build.np_array(sa, rows, mom)
+    if case.get("perm") or case.get("extra"):
+        import itertools
+
+        fnames = list(base.dtype.names)
+        order = list(list(itertools.permutations(range(len(fnames))))[case.get("perm", 0) % math.factorial(len(fnames))])
+        fields = [(fnames[i], numpy.float64) for i in order]
+        if case.get("extra"):
+            pos = {"first": 0, "last": len(fields), "middle": len(fields) // 2}[case["extra"]]
+            fields.insert(pos, ("charge", numpy.int64))
+        raw = numpy.zeros(len(base), dtype=fields)
+        for nm in fnames:
+            raw[nm] = base.view(numpy.ndarray)[nm]
+        if case.get("extra"):
+            raw["charge"] = numpy.arange(len(base)) % 3 - 1
+        base = raw.view(type(base))
     arr = (base[:n] if n else base[:0]).reshape(shape)
     plain = numpy.array(arr.view(numpy.ndarray), copy=True)
     names = R.coord_names(sa)
@@ -307,4 +325,4 @@ def check_case(cell, case, ctx):
 
 
 def describe(cell, case):
-    return {"shape": SHAPES[cell["rank"]][case["shape"]], "idx": case["idx"]}
+    return {"shape": SHAPES[cell["rank"]][case["shape"]], "idx": case["idx"], "perm": case.get("perm"), "extra": case.get("extra")}
